@@ -4,6 +4,8 @@
 import Proofs.Skip
 import Proofs.RoundTrip
 import Props.C08
+import Proofs.CompactDec
+import Props.C04
 namespace Scale.C18
 open Scale
 
@@ -57,6 +59,31 @@ theorem skip_fails_iff_decode_fails (ty : Ty) (bs : Bytes) :
         | ok v => obtain ⟨u, hu⟩ := a2 v r2 hd; rw [hs] at hu; cases hu
         | err => rfl
         | panic => rfl
+
+/-- In particular for compact integers: `skip` steps over exactly the canonical forms of the values
+    that fit the width — no non-minimal form, no value of a wider type with the same framing. -/
+theorem compact_skip_iff_canonical {w : Nat} (hw : C04.Width w) (bs rest : Bytes) :
+    skip (.compact w) bs = (.ok (), rest) ↔ ∃ x, x < 2 ^ (8 * w) ∧ bs = Spec.compact x ++ rest := by
+  obtain ⟨h1, h2⟩ := skip_agrees_with_decode (.compact w) bs
+  have key : ∀ v, decode (.compact w) bs = (.ok v, rest) ↔ ∃ x, v = .nat x ∧ compactDecode w bs = (.ok x, rest) := by
+    intro v
+    simp only [decode, Impl.decodeP, compactDecode, run_bind]
+    rcases run sliceInput (Impl.compactDec w) bs with ⟨r, s⟩
+    cases r with
+    | ok a =>
+      simp only [run]
+      constructor
+      · intro h; cases h; exact ⟨a, rfl, rfl⟩
+      · rintro ⟨x, rfl, h⟩; cases h; rfl
+    | err => simp [run]
+    | panic => simp [run]
+  constructor
+  · intro h
+    obtain ⟨v, hv⟩ := h1 rest h
+    obtain ⟨x, _, hx⟩ := (key v).mp hv
+    exact ⟨x, (C04.decode_iff_canonical hw bs rest x).mp hx⟩
+  · rintro ⟨x, hx, rfl⟩
+    exact h2 (.nat x) rest ((key _).mpr ⟨x, rfl, (C04.decode_iff_canonical hw _ rest x).mpr ⟨hx, rfl⟩⟩)
 
 /-- Skipping through ANY faithful input (a reader of unknown length, a chunked reader, the shared
     buffer, any stack of non-binding wrappers): it succeeds exactly when decoding from the slice of
